@@ -296,6 +296,12 @@ def rich_models(draw, max_bodies=4, assets=True, defaults=True, frames=True, rep
           ga['solmix'] = fmt(draw(num(0.5, 2, 1)))
         if draw(st.integers(0, 4)) == 0:
           ga['priority'] = str(draw(st.integers(0, 2)))
+        if depth >= 1 and draw(st.integers(0, 2)) == 0:
+          # a nested class that sets an attribute back to the built-in default (the parent class may override it)
+          ga[draw(st.sampled_from(['friction', 'margin', 'condim', 'solmix']))] = None
+          ga = {k: (v if v is not None else dict(friction='1 0.005 0.0001', margin='0', condim='3', solmix='1')[k])
+                for k, v in ga.items()}
+          labels.add('default-reset-to-builtin')
         _set(ET.SubElement(d, 'geom'), **ga)
       if draw(st.booleans()):
         ja = {}
@@ -313,6 +319,9 @@ def rich_models(draw, max_bodies=4, assets=True, defaults=True, frames=True, rep
           ja['margin'] = fmt(draw(num(0, 0.02, 3)))
         if draw(st.integers(0, 4)) == 0:
           ja['group'] = str(draw(st.integers(0, 5)))
+        if depth >= 1 and draw(st.integers(0, 2)) == 0:
+          ja[draw(st.sampled_from(['damping', 'armature', 'stiffness', 'frictionloss']))] = '0'
+          labels.add('default-reset-to-builtin')
         _set(ET.SubElement(d, 'joint'), **ja)
       if draw(st.integers(0, 2)) == 0:
         _set(ET.SubElement(d, 'site'), size=fmt([draw(num(0.005, 0.05, 3))]),
